@@ -248,6 +248,8 @@ def selftest(tier):
     if [i for i, _ in rej] != [3, 4]:
         raise C.ToolError(f"selftest: {rej}")
     C.log("[C08] selftest ok")
+    import sessionwalk
+    sessionwalk.selftest(C.workdir("c08_self_sw"))
     return 0
 
 
